@@ -8,6 +8,7 @@ from engine import State, Unsupported
 import contracts as C
 import contracts_async as CA
 from specs.codec import run_async, _ok_payload, _is_err_concrete
+import specs.dispatch  # noqa: registers the "sym_result" awaiter
 
 EVENTS = ['record', 'rotate', 'closed']
 
